@@ -20,7 +20,7 @@ LIB_FILES = ['src/lib.rs', 'src/opcodes.rs', 'src/protocol.rs', 'src/stack.rs', 
              'src/mutators/stringlen.rs', 'src/mutators/typeconfusion.rs']
 
 RULES = [
-    ('os-randomness', r'\bfrom_os_rng\b|\bfrom_entropy\b|\bthread_rng\b|\brand::rng\s*\(|\bOsRng\b|\bgetrandom\b'),
+    ('os-randomness', r'\bfrom_os_rng\b|\bfrom_entropy\b|\bthread_rng\b|\brand::rng\s*\(|\bOsRng\b|\bgetrandom\b|\brand::random\b|\bThreadRng\b|\brand::rngs::|\bfastrand\b|(?<![\w.:])random\s*(::\s*<[^>]*>\s*)?\('),
     ('wall-clock', r'\bSystemTime\b|\bInstant\b|\bUNIX_EPOCH\b|\bchrono::'),
     ('thread-or-process-identity', r'\bthread::current\b|\bThreadId\b|\bprocess::id\b|\bstd::env::|\benv::var'),
     ('global-mutable-state', r'\bstatic\s+mut\b|\bthread_local!|\bAtomic(?:U|I|Bool|Usize)\w*|\blazy_static!|\bMutex\b|\bRwLock\b'),
